@@ -6,6 +6,12 @@ Ties:  K  dflt.literal  real `json_to_rust_literal` on (JSON value x TypeRef), t
                         `#[builder(..)]`, field type, struct-level `#[serde(default)]`, derives, and the
                         `#[default]` variant / fields of the member's generated type, read with syn;
                         JUDGED through the trusted semantics of those attributes (Sem/Defaults.lean)
+       E  dflt.doc      real generator (in-process) on documents with SEVERAL sites (component structs, inline objects at
+                        sibling properties / different holders / array items, query / header parameter structs) for
+                        {types, client-mod, server-mod} x {request only, response only, both, parameter, unreferenced}:
+                        every site path is followed through the emitted field types to the struct it resolves to; judged
+                        per site on the derives and attributes that struct really carries (if it derives Deserialize,
+                        decode-omitted must give the default declared AT THAT SITE), DESIGN 12.10
        A  dflt.run      (thorough) the emitted types compiled in an arena crate against the documented
                         runtime crates and EXECUTED: decode of a document omitting the member,
                         `T::default()`, `T::builder().build()`, re-encoding — judged directly, and
@@ -14,7 +20,7 @@ Ties:  K  dflt.literal  real `json_to_rust_literal` on (JSON value x TypeRef), t
 import itertools, json, os, re, shutil
 import vlib
 from checks.c09 import vlib_corpus
-from specgen import dflt_spec, dflt_custom_name
+from specgen import dflt_spec, dflt_custom_name, dflt_doc_spec, dflt_doc_sites, _dflt_obj_schema
 
 INT_FORMATS = [None, "int32", "int64", "int8", "int16", "uint8", "uint16", "uint32", "uint64"]
 INT_RANGE = {None: (-2**63, 2**63 - 1), "int64": (-2**63, 2**63 - 1), "int32": (-2**31, 2**31 - 1), "int16": (-2**15, 2**15 - 1),
@@ -67,8 +73,34 @@ def mk(kind, value, src="default", **kw):
     return {"op": "dflt.member", "in": m}
 
 
+def prepare_doc(case):
+    """dflt.doc: primary data = the document description `doc`; the OpenAPI text, the site list (paths to follow in
+    the emitted code, kind, usage, sharing key = the site's own object schema, members) are derived."""
+    d = case["in"]["doc"]
+    usage = {c["name"]: c["usage"] for c in d.get("comps", [])}
+    sites = []
+    for s in dflt_doc_sites(d):
+        ms = []
+        for f in s["fields"]:
+            m = dict(f["m"], builders=bool(d.get("builders")))
+            if "scalar" not in m["kind"]:
+                if not (s["at"] == ["T"] and f["name"] == "mem"):
+                    raise ValueError("generated member types are named for T.mem only")
+                m["custom"] = dflt_custom_name(m)
+            ms.append({"name": f["name"], "m": m})
+        sites.append({"at": s["at"], "members": [f["name"] for f in s["fields"]], "kind": s["kind"], "usage": usage.get(s["comp"], "both"),
+                      "key": _dflt_obj_schema(s["fields"], s["deny"], s["ann"]) if s["inline"] else None, "ms": ms})
+    i = {"doc": d, "spec": dflt_doc_spec(d), "mode": d["mode"], "sites": sites,
+         "cfg": {"builders": bool(d.get("builders")), "all_schemas": any(c["usage"] == "none" for c in d.get("comps", []))}}
+    if case.get("_want_code"):
+        i["want"] = ["code"]
+    return {"op": case["op"], "in": i}
+
+
 def prepare(case):
     """derived fields (the OpenAPI document, generator config) are rebuilt from the primary data."""
+    if case["op"] == "dflt.doc":
+        return prepare_doc(case)
     if case["op"] not in ("dflt.member",):
         return case
     m = {k: v for k, v in case["in"].items() if k not in ("spec", "cfg", "mode", "struct", "member", "custom", "want")}
@@ -172,6 +204,179 @@ def cases(ctx):
     if ctx.quick:
         mem = r.sample(mem, 2500)
     out += full + mem
+    # ---- E on documents: target x usage, several sites ------------------------------------------------
+    out += usage_cases(ctx, r, full + mem, 900 if ctx.quick else 12000)
+    out += site_cases(ctx, r, 500 if ctx.quick else 6000)
+    return out
+
+
+# ------------------------------------------------------------------------------------------------
+# E on documents: usage / target dimension and site dimension (dflt.doc)
+MODES = ["types", "client-mod", "server-mod"]
+USAGES = ["req", "resp", "both", "param", "none"]
+ZF = {"name": "z", "k": "m", "m": {"kind": {"scalar": {"ty": "string"}}}}
+
+
+def usage_doc(m, mode, usage, builders, loc="query"):
+    """the member case `m` (grammar of dflt.member) as member `mem` of component T used as `usage` says, or — for
+    `param` — as a parameter of operation pq; generated for `mode`"""
+    m = {k: v for k, v in m.items() if k not in ("builders", "deny")}
+    if usage == "param":
+        return {"mode": mode, "builders": builders, "comps": [], "params": [{"name": "mem", "loc": loc, "m": m}, {"name": "z", "loc": loc, "m": dict(ZF["m"])}]}
+    return {"mode": mode, "builders": builders, "comps": [{"name": "T", "usage": usage, "fields": [{"name": "mem", "k": "m", "m": m}, dict(ZF)]}]}
+
+
+CORE_MEMBERS = [
+    mk({"scalar": {"ty": "integer"}}, 5), mk({"scalar": {"ty": "integer", "format": "int32"}}, -7, required=True),
+    mk({"scalar": {"ty": "string"}}, "c", "const", required=True), mk({"scalar": {"ty": "string"}}, "e", "enum1", required=True),
+    mk({"scalar": {"ty": "string"}}, "", "default"), mk({"scalar": {"ty": "string"}}, "k", "const"),
+    mk({"scalar": {"ty": "boolean"}}, True, nullable=True), mk({"scalar": {"ty": "boolean"}}, "true"),
+    mk({"scalar": {"ty": "number"}}, 1.5), mk({"scalar": {"ty": "number", "format": "float"}}, "0.25", required=True),
+    mk({"scalar": {"ty": "integer", "format": "uint8"}}, 255, "enum1"), mk({"scalar": {"ty": "string"}}, [], array=True),
+    mk({"scalar": {"ty": "integer"}}, None, "enum1", nullable=True),
+]
+
+
+def usage_cases(ctx, r, member_cases, n_random):
+    """(a): every (target x usage) with a fixed core of member shapes, plus a sample of the whole member space"""
+    out = []
+    scalar_only = lambda c: "scalar" in c["in"]["kind"]
+    for mode in MODES:
+        for usage in USAGES:
+            for c in CORE_MEMBERS:
+                for b in (False, True):
+                    for loc in (("query", "header") if usage == "param" else ("query",)):
+                        out.append({"op": "dflt.doc", "in": {"doc": usage_doc(c["in"], mode, usage, b, loc)}})
+    pool_any = [c for c in member_cases]
+    pool_sc = [c for c in member_cases if scalar_only(c)]
+    for _ in range(n_random):
+        usage = r.choice(USAGES)
+        c = r.choice(pool_sc if usage == "param" else pool_any)
+        out.append({"op": "dflt.doc", "in": {"doc": usage_doc(c["in"], r.choice(MODES), usage, bool(c["in"].get("builders")), r.choice(["query", "query", "header"]))}})
+    return out
+
+
+SITE_POOL = {
+    ("integer", None): [0, 1, 5, -7, 42, 100], ("integer", "int32"): [0, 3, -2, 2147483647], ("integer", "uint8"): [0, 9, 255],
+    ("string", None): ["", "hi", "a b", "x", "1"], ("boolean", None): [True, False], ("number", None): [1.5, -0.25, 0.5, 2.75],
+    ("number", "float"): [0.5, 1.25, -2.75],
+}
+SITE_NAMES = ["backoff", "jitter", "max", "mode", "n_tries", "on"]
+ANNOTATIONS = [("description", ["first", "second", "third"]), ("title", ["One", "Two", "Three"]), ("example", [{"max": 1}, {"max": 2}, {"max": 3}])]
+MEMBER_ANNOTATIONS = [("description", ["a", "b", "c"]), ("example", ["e1", "e2", "e3"]), ("deprecated", [False, True, False])]
+
+
+def site_shape(r):
+    """an inline object shape: 1-3 defaulted scalar members (+ a sibling without default)"""
+    names = sorted(r.sample(SITE_NAMES, r.randint(1, 3)))
+    mems = []
+    for n in names:
+        ty, fmt = r.choice(list(SITE_POOL))
+        src = r.choice(["default", "default", "const", "enum1"])
+        mems.append({"name": n, "ty": ty, "fmt": fmt, "src": src, "required": r.random() < 0.4, "nullable": src == "default" and r.random() < 0.15})
+    return mems
+
+
+def site_fields(shape, values, mann=None):
+    fs = []
+    for s, v in zip(shape, values):
+        kind = {"scalar": {"ty": s["ty"], "format": s["fmt"]} if s["fmt"] else {"ty": s["ty"]}}
+        m = {"kind": kind, s["src"]: v}
+        if s["required"]: m["required"] = True
+        if s["nullable"]: m["nullable"] = True
+        f = {"name": s["name"], "k": "m", "m": m}
+        if mann and s["name"] in mann:
+            f["mann"] = mann[s["name"]]
+        fs.append(f)
+    return fs + [dict(ZF)]
+
+
+PLACEMENTS = {
+    # (component, property, wrap) per site
+    "siblings": [("A", "p", "plain"), ("A", "q", "plain"), ("A", "r", "plain")],
+    "holders": [("A", "p", "plain"), ("B", "p", "plain"), ("C", "p", "plain")],
+    "items": [("A", "p", "array"), ("A", "q", "array"), ("A", "r", "plain")],
+    "mixed": [("A", "p", "plain"), ("B", "q", "array"), ("B", "r", "plain")],
+    "reqresp": [("A", "p", "plain"), ("B", "p", "plain"), ("B", "q", "array")],
+}
+
+
+def site_doc(r, what):
+    """(b): 2-3 inline objects of ONE shape whose members differ only in default values (`what` = defaults), only in
+    annotations (`what` = ann: nothing about defaults may change), or both (sites 0/1 defaults, 1/2 annotations);
+    `what` = same: identical schemas (one shared type)."""
+    shape = site_shape(r)
+    n = r.choice([2, 2, 3])
+    base = [r.choice(SITE_POOL[(s["ty"], s["fmt"])]) for s in shape]
+    def other(vals):
+        k = r.randrange(len(shape)) if r.random() < 0.6 else None      # one member or all members differ
+        out = []
+        for i, (s, v) in enumerate(zip(shape, vals)):
+            cands = [x for x in SITE_POOL[(s["ty"], s["fmt"])] if x != v]
+            out.append(r.choice(cands) if (k is None or k == i) and cands else v)
+        return out
+    variants = []       # (values, object annotation, member annotations)
+    akey, avals = r.choice(ANNOTATIONS)
+    mkey, mvals = r.choice(MEMBER_ANNOTATIONS)
+    mname = r.choice(shape)["name"]
+    def ann(i):
+        return ({akey: avals[i]}, None) if r.random() < 0.5 else (None, {mname: {mkey: mvals[i]}})
+    if what == "defaults":
+        vals = [base]
+        while len(vals) < n:
+            v = other(r.choice(vals))
+            if v not in vals: vals.append(v)
+            elif all(len(SITE_POOL[(s["ty"], s["fmt"])]) <= n for s in shape): break
+        variants = [(v, None, None) for v in vals]
+    elif what == "ann":
+        style = r.random() < 0.5
+        variants = [(base, {akey: avals[i]}, None) if style else (base, None, {mname: {mkey: mvals[i]}}) for i in range(n)]
+    elif what == "same":
+        variants = [(base, None, None)] * n
+    else:
+        b2 = other(base)
+        a1 = ann(1); a2 = ann(2)
+        variants = [(base, None, None), (b2,) + a1, (b2,) + a2][:max(n, 2)]
+    order = list(range(len(variants)))
+    r.shuffle(order)                     # which variant sits at which place: both generation orders over the seeds …
+    places = PLACEMENTS[r.choice(list(PLACEMENTS))][:len(variants)]
+    comps = {}
+    for (cn, prop, wrap), vi in zip(places, order):
+        v, oa, ma = variants[vi]
+        f = {"name": prop, "k": "obj", "wrap": wrap, "required": r.random() < 0.3, "fields": site_fields(shape, v, ma)}
+        if oa: f["ann"] = oa
+        comps.setdefault(cn, []).append(f)
+    usage_pool = ["req", "resp", "both", "both"] + (["none"] if r.random() < 0.1 else [])
+    return {"mode": r.choice(MODES), "builders": r.random() < 0.3,
+            "comps": [{"name": cn, "usage": r.choice(usage_pool), "fields": fs} for cn, fs in sorted(comps.items())]}
+
+
+def swapped(d):
+    """… and explicitly: the same document with the inline objects of the first two places exchanged"""
+    import copy
+    d = copy.deepcopy(d)
+    objs = [(c, i) for c in d["comps"] for i, f in enumerate(c["fields"]) if f["k"] == "obj"]
+    if len(objs) < 2:
+        return None
+    (c0, i0), (c1, i1) = objs[0], objs[1]
+    f0, f1 = c0["fields"][i0], c1["fields"][i1]
+    for k in ("fields", "ann"):
+        a, b = f0.get(k), f1.get(k)
+        for f, v in ((f0, b), (f1, a)):
+            if v is None: f.pop(k, None)
+            else: f[k] = v
+    return d
+
+
+def site_cases(ctx, r, n):
+    out = []
+    for i in range(n):
+        what = ["defaults", "defaults", "ann", "both", "same"][i % 5]
+        d = site_doc(r, what)
+        out.append({"op": "dflt.doc", "in": {"doc": d}})
+        s = swapped(d)
+        if s is not None and what != "same":
+            out.append({"op": "dflt.doc", "in": {"doc": s}})
     return out
 
 
@@ -290,5 +495,6 @@ def run(ctx):
         rule="K: every (TypeRef base x JSON value x nullable x array) of a 21 x 95 table through the real json_to_rust_literal (+ random ints/decimals/strings), extract_default_value on all default/const/enum combinations; "
              "E: bounded-exhaustive member grammar {string, integer x 9 formats, number x 3 formats, boolean, string formats date/date-time/uuid, enum inline/$ref, inline object, arrays of 4 item types, nullable} x "
              "{default values of the matching JSON type incl. range ends, string-encoded ints/decimals/bools, null} x {default, const, single enum} x {required, optional} x {builders on, off} (all in thorough, sample in quick) through the real generator in-process; "
+             "E on documents (dflt.doc): 13 core member shapes x {types, client-mod, server-mod} x {req, resp, both, param(query, header), none} x builders + a sample of the member space under random target/usage; 2-3 same-shaped inline objects differing only in default values / only in annotations / both / not at all, at sibling properties, different holders, array items, request vs response holders, in both orders, judged per site; "
              "A (thorough): 700+ of those compiled and executed; non-trivial = any branch; distinct by input hash",
         assumptions=["the member is named `mem` in struct `T` with one optional sibling (field naming/renames are C09/C02)", "default enum mode, no discriminator, no OData"])
